@@ -16,6 +16,9 @@ def scenarios(rng, tier):
     out.append(dict(w=132, h=92, n=17, stat=1, **{'f:enc_mode': 8, 'f:tf_level': 0}))
     out.append(dict(w=100, h=70, n=8, stat=1, content=4, **{'f:enc_mode': 8, 'f:qp': 63}))                                  # extreme content, large errors
     out.append(dict(w=100, h=70, n=8, stat=1, **{'f:enc_mode': 8, 'f:rate_control_mode': 1, 'f:target_bit_rate': 100000}))
+    # temporal filtering of layer-1 pictures (presets <= 6) on clean content at low qp: the filter strength is adjusted down to its minimum
+    out.append(dict(w=192, h=128, n=17, stat=1, content=2, **{'f:enc_mode': 6, 'f:qp': 20}))
+    out.append(dict(w=200, h=132, n=17, stat=1, content=8, **{'f:enc_mode': 4, 'f:qp': 12}))
     # reconstruction output disabled: the encoder may skip work it only does for the recon port; the statistics must still be those of the decoded picture
     out.append(dict(w=192, h=128, n=17, stat=1, recon=0, decode=1, **{'f:enc_mode': 8, 'f:qp': 32}))
     out.append(dict(w=132, h=92, n=10, stat=1, recon=0, decode=1, content=1, **{'f:enc_mode': 6}))
